@@ -99,3 +99,13 @@ MUTANTS += [
     ("c19-lifo", "C19", [(H, "        self._dict[arg1][arg0].put_nowait((cmd, data))", "        q = self._dict[arg1][arg0]\n        items = [(cmd, data)]\n        while not q.empty():\n            items.append(q.get_nowait())\n        for it in items:\n            q.put_nowait(it)")]),
     ("c19-find-ignores-arg0-when-single", "C19", [(H, "        if arg0 in self._dict[arg1] and not self._dict[arg1][arg0].empty():\n            return (arg0, arg1)\n\n        return None", "        if arg0 in self._dict[arg1] and not self._dict[arg1][arg0].empty():\n            return (arg0, arg1)\n\n        if len(self._dict[arg1]) == 1:\n            return next(((key0, arg1) for key0, val0 in self._dict[arg1].items() if not val0.empty()), None)\n        return None")]),
 ]
+K = "adb_shell/auth/keygen.py"
+MUTANTS += [
+    ("c17-n0inv-not-negated", "C17", [(K, "    n0inv = r32 - n0inv\n", "")]),
+    ("c17-rr-wrong-exponent", "C17", [(K, "    rr = (rr ** 2) % key.n", "    rr = (rr * 2) % key.n")]),
+    ("c17-modulus-big-endian", "C17", [(K, "        _to_bytes(key.n, ANDROID_PUBKEY_MODULUS_SIZE, 'little'),", "        _to_bytes(key.n, ANDROID_PUBKEY_MODULUS_SIZE, 'big'),")]),
+    ("c17-revert-F3", "C17", [("adb_shell/auth/sign_pycryptodome.py", "        return pkcs1_15.new(self.rsa_key).sign(_PrehashedSHA1(data))", "        from Crypto.Hash import SHA256\n        return pkcs1_15.new(self.rsa_key).sign(SHA256.new(data))")]),
+    ("c17-no-comment", "C17", [(K, "        public_key_file.write(get_user_info().encode())", "        pass")]),
+    ("c17-exponent-hardcoded", "C17", [(K, "        key.e\n    )", "        65537\n    )")]),
+    ("c17-cryptography-sha256", "C17", [("adb_shell/auth/sign_cryptography.py", "utils.Prehashed(hashes.SHA1())", "utils.Prehashed(hashes.SHA1()) if data[0] < 0xf0 else hashes.SHA1()")]),
+]
